@@ -2667,6 +2667,69 @@ void save_file_info (int file_id, int lines) {
  * @param top If non-zero, do not add to A_INCLUDES.
  * @return The index in A_STRINGS where the name is stored + 1. The returned value is used as file ID.
  */
+/**
+ * @brief Add one more entry to the program string table for a string that is already in it.
+ * @return The index of the new entry.
+ */
+static short store_prog_string_again (const char *string_data) {
+  short i, next;
+  short *idxp;
+  char *str;
+  intptr_t hash;
+  unsigned char mask, *tagp;
+
+  str = make_shared_string (string_data);
+  STRING_HASH (hash, str);
+  idxp = &string_idx[hash];
+  mask = 1 << (hash & 7);
+  tagp = &string_tags[hash >> 3];
+  if (*tagp & mask)
+    next = *idxp;
+  else
+    {
+      *tagp |= mask;
+      next = -1;
+    }
+  add_to_mem_block (A_STRINGS, 0, sizeof (char *));
+  add_to_mem_block (A_STRING_NEXT, 0, sizeof (short));
+  add_to_mem_block (A_STRING_REFS, 0, sizeof (short));
+  i = (short)(mem_block[A_STRINGS].current_size / sizeof (char *)) - 1;
+  PROG_STRING (i) = str;
+  ((short *) mem_block[A_STRING_NEXT].block)[i] = next;
+  ((short *) mem_block[A_STRING_REFS].block)[i] = 1;
+  *idxp = i;
+  return i;
+}
+
+/**
+ * @brief Find the file ID for a file that is about to be read.
+ * The lines of a file ID are counted on through all its segments in A_FILE_INFO (that is how a file
+ * is resumed after an #include), so a file that is included once more must not reuse the ID of the
+ * earlier inclusion: it gets another string table entry of its own.
+ */
+static int program_file_id (const char *name, int top) {
+  int file_id;
+
+  if (!mem_block[A_STRINGS].block)
+    return 0;
+  file_id = store_prog_string (name) + 1;
+  if (!top && mem_block[A_FILE_INFO].block)
+    {
+      unsigned short *fi = (unsigned short *) mem_block[A_FILE_INFO].block;
+      size_t i, n = mem_block[A_FILE_INFO].current_size / sizeof (unsigned short);
+
+      for (i = 1; i < n; i += 2)
+        {
+          if (fi[i] == (unsigned short) file_id)
+            {
+              free_prog_string (file_id - 1);
+              return store_prog_string_again (name) + 1;
+            }
+        }
+    }
+  return file_id;
+}
+
 int add_program_file (const char *name, int top) {
   if (!top && mem_block[A_INCLUDES].block)
     {
@@ -2676,13 +2739,13 @@ int add_program_file (const char *name, int top) {
 #ifdef NEOLITH_VERIF
   {
     extern void (*verif_line_hook) (int, long, long, long, const char *);
-    int verif_id = mem_block[A_STRINGS].block ? store_prog_string (name) + 1 : 0;
+    int verif_id = program_file_id (name, top);
     if (verif_line_hook)
       verif_line_hook ('a', (long) verif_id, (long) top, 0, name);
     return verif_id;
   }
 #endif
-  return mem_block[A_STRINGS].block ? store_prog_string (name) + 1 : 0;
+  return program_file_id (name, top);
 }
 
 void init_lpc_compiler(size_t max_locals, const char* include_dirs) {
